@@ -21,6 +21,7 @@ import VerylModel.Driver.FS
 import VerylModel.Driver.Crash
 import VerylModel.Driver.Wide
 import VerylModel.Driver.ExprRef
+import VerylModel.Driver.Sim
 import VerylModel.Driver.Aig
 import VerylModel.Driver.Netlist
 import VerylModel.Driver.Swap
@@ -59,6 +60,7 @@ def main (args : List String) : IO UInt32 := do
   | ["crash"] => VerylModel.Driver.Crash.run; return 0
   | ["wide"] => VerylModel.Driver.Wide.run; return 0
   | ["exprref"] => VerylModel.Driver.ExprRef.run; return 0
+  | ["sim"] => VerylModel.Driver.Sim.run; return 0
   | ["npn"] => VerylModel.Driver.Aig.runNpn; return 0
   | ["lib"] => VerylModel.Driver.Aig.runNpn; return 0
   | ["aig"] => VerylModel.Driver.Aig.runAig; return 0
